@@ -187,6 +187,8 @@ def run_check(prop, tier, seed, jobs, budget_s):
     # ---- drift trigger ----------------------------------------------------------------------
     drifted = drift.drifted(prop)
     boost = bool(drifted) or not proof_ok
+    if boost:
+        budget_s *= 3      # the anchored source was edited (or a proof broke): this run explores more and may take longer
 
     # ---- step 1: known findings ------------------------------------------------------------
     findings = load_findings(prop)
